@@ -111,7 +111,7 @@ def scenarios(ctx):
                                     disconnect=1), closing=False))
         # B. established session: traffic, expiries, disconnect()/loss and API calls until the loss is reported
         out.append(Std('pub-%s' % mode, profile='pub', mode=mode, init=CONNECTED, reconnects=[(True, 0, 4)],
-                       pub_qos=(0, 1, 2), api_after_close=True, rx_after_close=True,
+                       pub_qos=(0, 1, 2), api_after_close=True, rx_after_close=True, pub_kinds=('rl128',),
                        budgets=dict(pub=2, ack=2 if q else 3, misack=1, tick=2, lose=1, rebuild=1, disconnect=1, connect=1,
                                     connack=1, reconn2=1), closing=False))
         out.append(Std('sub-%s' % mode, profile='sub', mode=mode,
